@@ -614,6 +614,12 @@ SKELETONS = [
         ("if", r"\bif\b"), ("register", r"register_sigaction\s*\("),
         # the action owns what it uses (a strong reference): nothing is upgraded - or let go of - inside a delivery
         ("weak", r"\b(?:downgrade|upgrade)\s*\(")]),
+    # the disposition the library installs is built from nothing: its own handler, its own flags, an empty mask
+    ("signal-hook-registry/src/lib.rs", "new@SA_RESTART", [
+        ("new.zeroed", r"let\s+mut\s+new\s*:\s*libc::sigaction\s*=\s*unsafe\s*\{\s*mem::zeroed\s*\(\s*\)\s*\}"),
+        ("new.from.other", r"let\s+mut\s+new\b[^=;]*=(?!\s*unsafe\s*\{\s*mem::zeroed)"),
+        ("handler", r"new\.sa_sigaction\s*=\s*handler\s+as\s+usize"), ("flags", r"new\.sa_flags\s*=\s*flags\s+as\s+_"),
+        ("mask", r"sa_mask"), ("install", r"libc::sigaction\s*\(\s*signal\s*,\s*&new\s*,\s*&mut\s+old\s*\)")]),
     # dropping the shared state of an instance removes every registration it recorded, unconditionally
     ("src/iterator/backend.rs", "drop@registered_signal_ids", [
         ("lock", r"\.registered_signal_ids\s*\.lock\s*\(\s*\)"),
